@@ -13,5 +13,5 @@
 (*   s16: legacy {dom_short} lists its alternatives shortest first and      *)
 (*        {doy_short} recognises only the padded form                        *)
 (***************************************************************************)
-Dev == [s6 |-> FALSE, s7 |-> FALSE, s12 |-> TRUE, s16 |-> FALSE]
+Dev == [s2 |-> FALSE, s6 |-> FALSE, s7 |-> FALSE, s12 |-> TRUE, s16 |-> FALSE]
 =============================================================================
